@@ -29,6 +29,10 @@ def operand_cases(tier):
         out.append((op, tuple(BOUNDARY[:10])))
         # repeated operands: the *meaning* clauses apply (text stability is only claimed for duplicate-free operands)
         out += [(op, (80, 80)), (op, (5, 5, 9)), (op, (10, 10, 20)), (op, (65535, 65535)), (op, (1, 1))]
+        # .. as many repeats as there are holes between the lowest and the highest operand (the length of the list equals the width of the span)
+        out += [(op, (1, 1, 3)), (op, (7, 7, 7, 10)), (op, (5, 3, 3)), (op, (20, 20, 21, 21, 24, 25)), (op, (65533, 65535, 65535))]
+    # every eq tuple of 3 and 4 operands over a small window that repeats an operand, in every order
+    out += [("eq", t) for n in (3, 4) for t in itertools.product((1, 2, 3, 4), repeat=n) if len(set(t)) < n]
     if tier == "thorough":
         rnd = random.Random(int(os.environ.get("VERIF_SEED", "0") or 0))
         for _ in range(400):
@@ -220,7 +224,8 @@ def _operand_zero(arg):
 
 
 def main(chk):
-    chk.prove(["c_port", "c_codec", "c_port_text"])
+    # (a few obligations of the neq write-back loop need 10..40 s when all cores are busy: a wider budget than the default 20 s of the quick tier)
+    chk.prove(["c_port", "c_codec", "c_port_text"], timeout_s=45 if chk.tier == "quick" else None)
     chk.lemmas(lemmas())
     from pyvc import contract as C_
     C_.REGISTRY["cisco_acl.port.Port._items_to_ports"].replay = replay_items_to_ports
